@@ -16,7 +16,6 @@
 #include "utils_private.h"
 #include <math.h>
 
-size_t UInt32ToStrBaseSign(uint32_t val, char * str, size_t len, int8_t base, scpi_bool_t sign);
 
 static unsigned long long n_trips = 0, n_nontrivial = 0;
 
